@@ -9,6 +9,9 @@ import json
 from harness import core
 
 
+REFUSED = ['h-', 'c####', 'x#', 'dd----', 'H##', 'k', 'CC####', 'e-#-#', '#', '--']
+
+
 def impl_import(kp, s):
     try:
         p = kp.HumdrumPitchImporter().import_pitch(s)
@@ -97,6 +100,13 @@ def run(chk):
             for k in order:
                 l, a, o = grid[k]
                 chk.evaluations += 1
+                if k % 5 == 2:
+                    # a refused spelling on the same importer (unknown letter, four accidentals, mixed signs): the error path
+                    # must leave nothing behind for the next spelling
+                    try:
+                        imp.import_pitch(REFUSED[(k // 5) % len(REFUSED)])
+                    except Exception:
+                        pass
                 try:
                     p = imp.import_pitch(texts[k])
                     got_i = f'{p.name}|{p.octave}'
